@@ -108,8 +108,14 @@ For a general description of dotted items (items) and ℇ-moves of items, see:
 */
 func (this *Item) Emoves() (items []*Item) {
 	newItems := util.NewStack(8).Push(this)
+	// Each item is expanded once: a repetition whose body can match the empty string leads back to itself.
+	expanded := make(map[string]bool)
 	for newItems.Len() > 0 {
 		item := newItems.Pop().(*Item)
+		if expanded[item.HashKey()] {
+			continue
+		}
+		expanded[item.HashKey()] = true
 
 		if item.Reduce() || item.nextIsTerminal() {
 			items = append(items, item)
